@@ -25,6 +25,8 @@ func init() {
 }
 
 func runC02(c *core.Ctx) {
+	c.Rule("PARSECOV", "no clause the grammar accepts is silently ignored by the parser")
+	checkParserCoverage(c, "PARSECOV")
 	c.Rule("RETRFLAG", "a node that retracts rows of its own declares NoRetractions false")
 	checkRetractionFlags(c, "RETRFLAG")
 	c.Rule("PADT", "outer join pads with nullable column types")
